@@ -2,6 +2,8 @@ import YarlProofs.C06
 import YarlProofs.C06Spec
 import YarlProofs.C12Readback
 import YarlProofs.C12Url
+import YarlProofs.C12More
+import YarlProofs.C06More
 /-!
   C06Headline.lean — AUDIT LAYER for property C06.
 
@@ -12,11 +14,24 @@ import YarlProofs.C12Url
   build(), with_user, with_password, with_path, with_name, with_fragment, with_query, / or joinpath reads back
   unchanged from the matching accessor (lone surrogates, and dot segments under an authority, excepted)."
 
+  Continued in C06HeadlineMore.lean (theorems that need modules which import this file): C11Ctor.lean imports this
+  file, so the with_user / with_password read-back on constructor results and on URLs with the invariant `NetlocCanon`
+  (GAPS 4) is stated there as `C06_headline_with_user_password_readback_…`.
+
   Vocabulary.  `DecodeSpec b tab s` (C06Spec.lean) is the NON-incremental specification of percent-decoding: tokenize
   `s` into escapes `%XY` / plain characters, group maximal runs of escapes, decode each run as UTF-8 left to right
   (`decodeRun`: complete character → the character, or its escape when the table says it must stay encoded
   (`uqEmit`); undecodable / truncated → copied verbatim), plain characters through `uqPlain` ('+' → ' ' for query
   tables).  `GoodText t` = `PyStr t ∧ NoSurrogate t`; `GoodPairs ps` = all keys and values `GoodText`.
+  `NoDots l` (PathLemmas) = no element of the segment list `l` is "." or ".."; `splitOn 47 t` = `t.split("/")`;
+  `stripTrail l` (PathAlg) = `l` without ONE trailing empty segment; `rawParts u` = the segments `raw_parts` shows;
+  `PathMore.argSegs e true ps` (C13More.lean) = the segments of the `joinpath` arguments AS GIVEN: each argument split at
+  '/', the trailing empty segment of a non-last argument dropped.  `plusToSpace s` = `s.replace("+", " ")`.
+  `strItems ps` = a sequence of (str, str) pairs as a `query=` argument; `expandItems items = some ps` = the argument
+  `items` denotes the pairs `ps` (list values expand to repeated keys, ints by `str()`); `SingleValued items` = no list
+  values.  `QsSpec.cut 38 [] s` (C12More.lean) = `s` cut at every '&'; `pctDecodeQs` (Defs.lean) = '+' → space byte,
+  well-formed `%XY` → byte, everything else its UTF-8 bytes (a malformed '%' stays '%'); `decodeReplace` =
+  `bytes.decode("utf-8", "replace")`.
 -/
 set_option linter.unusedVariables false
 namespace Yarl
@@ -66,7 +81,8 @@ theorem C06_headline_decoding_is_utf8 (b : Backend) (s t : Str) (hs : PyStr s) (
   C06_decodes_utf8 b s t hs hsn ht htn h
 
 /-- "query" (the MultiDict accessor): NOT `DecodeSpec` but `urllib.parse.parse_qsl` (`parseQsl`: split at '&', first
-    '=', '+' → ' ', stdlib `unquote` with errors='replace').  By definition — -/
+    '=', '+' → ' ', stdlib `unquote` with errors='replace').  By definition — (what that IS in terms of UTF-8
+    percent-decoding: C06_headline_query_accessor_is_form_decoding below) -/
 theorem C06_headline_query_accessor (u : Url) : queryPairs u = parseQsl u.query := rfl
 
 /-- — and for it the clause "undecodable escapes kept verbatim" is FALSE: KNOWN FINDING F-C06-query-replace,
@@ -78,6 +94,39 @@ theorem C06_headline_query_accessor_fails_for_undecodable (e : Env) :
   rw [(C06_accessor_wiring e _).2.1]
   generalize e.b = b
   cases b <;> decide +kernel
+
+/-- closes GAPS 1: "query … equals the UTF-8 percent-decoding of the corresponding raw component", for an ARBITRARY raw
+    query: cut the raw query at every '&', drop the empty pieces, key = the text before the first '=' of a piece,
+    value = the text after it ("" without '='), and each of the two is form-decoded — '+' → space, `%XY` → byte, a
+    malformed '%' kept (`pctDecodeQs`), the bytes then decoded as UTF-8 with U+FFFD for every undecodable part
+    (`decodeReplace`; this replacement instead of "kept verbatim" is F-C06-query-replace, previous theorem).
+    The right-hand side is written without the model's `parseQsl` / `stdUnquote` / `splitOn` / `partition`. -/
+theorem C06_headline_query_accessor_is_form_decoding (u : Url)
+    -- guard: the raw query is a Python string without lone surrogates; true for every URL made through the auto-encoding
+    -- API (second part); needed: C06_headline_query_accessor_is_form_decoding_fails_for_raw_surrogate
+    (hq : GoodText u.query) :
+    queryPairs u = ((QsSpec.cut 38 [] u.query).filter (fun p => p ≠ [])).map (fun p =>
+      (decodeReplace (pctDecodeQs (p.takeWhile (· ≠ 61))),
+       decodeReplace (pctDecodeQs ((p.dropWhile (· ≠ 61)).drop 1)))) :=
+  C06_query_accessor_spec_url u hq
+
+/-- — and the guard holds for every URL obtainable through the auto-encoding API (`Reach`, C01Reach.lean: constructor,
+    build(encoded=False), every modifier with Python-string arguments, join): its stored query is ASCII. -/
+theorem C06_headline_query_accessor_is_form_decoding_reachable (e : Env) (u : Url) (hr : Reach e u) :
+    queryPairs u = ((QsSpec.cut 38 [] u.query).filter (fun p => p ≠ [])).map (fun p =>
+      (decodeReplace (pctDecodeQs (p.takeWhile (· ≠ 61))),
+       decodeReplace (pctDecodeQs ((p.dropWhile (· ≠ 61)).drop 1)))) :=
+  C06_query_accessor_spec_reach e u hr
+
+/-- — the guard is needed: a lone surrogate in a raw query (possible with `encoded=True` only) is kept by `parse_qsl`
+    (it never reaches the UTF-8 decoder) but has no UTF-8 bytes: raw query "\ud800=1" (model artefact of `utf8`, not a
+    library defect). -/
+theorem C06_headline_query_accessor_is_form_decoding_fails_for_raw_surrogate :
+    parseQsl [0xD800, 61, 49] = [([0xD800], [49])] ∧
+    ((QsSpec.cut 38 [] [0xD800, 61, 49]).filter (fun p => p ≠ [])).map (fun p =>
+      (decodeReplace (pctDecodeQs (p.takeWhile (· ≠ 61))),
+       decodeReplace (pctDecodeQs ((p.dropWhile (· ≠ 61)).drop 1)))) = [([], [49])] :=
+  C06_query_accessor_spec_needs_no_surrogate
 
 /-! ## Sentence 1b — "with malformed or undecodable escapes kept verbatim" -/
 
@@ -144,7 +193,8 @@ theorem C06_headline_readback_quoter_level (b : Backend) (t : Str) (ht : PyStr t
    C06_readback_fragment b t ht hn, C12_part_readback b t ht hn, C06_path_safe_readback b t ht hn⟩
 -- Appendix E: C06_readback ↦ C06_readback_user / _path / _name / _fragment (one per pairing, gathered above).
 
-/-- "build()" — path and fragment (user / password / query of build: GAPS 3) -/
+/-- "build()" — path and fragment (a path with '.' inside segments under an authority:
+    C06_headline_build_path_readback_dots; user / password / host / query / query_string: the theorems after it) -/
 theorem C06_headline_build_readback (e : Env) (a : BuildArgs) (v : Url) (h : build e a = .ok v)
     (henc : a.encoded = false) :
     (PyStr a.fragment → NoSurrogate a.fragment → fragmentDecoded e v = a.fragment) ∧
@@ -154,9 +204,118 @@ theorem C06_headline_build_readback (e : Env) (a : BuildArgs) (v : Url) (h : bui
   ⟨fun hf hn => C06_build_fragment_readback e a v h henc hf hn,
    fun hp hn hne hdot => C06_build_path_readback e a v h henc hp hn hne hdot⟩
 
+section BuildMoreHeadline
+open PathLemmas
+
+/-- closes GAPS 5 for build(): "build()" — `build(path=t)` for a non-empty `t` reads back unchanged from `.path` also
+    when `t` has '.' INSIDE segments under an authority ("/a.b/..c/d.txt"); only dot SEGMENTS ("." / "..") are
+    excluded, exactly the property's exception.  (A rootless `path=` under an authority is rejected by the library,
+    so `h` excludes it.) -/
+theorem C06_headline_build_path_readback_dots (e : Env) (a : BuildArgs) (v : Url) (h : build e a = .ok v)
+    (henc : a.encoded = false)                                 -- auto-encoding mode (decoded values)
+    (hp : PyStr a.path)                                        -- model artefact
+    (hn : NoSurrogate a.path)                                  -- "lone surrogates … excepted"
+    (hne : a.path ≠ [])                                        -- the empty path reads back "" or "/" (C06_headline_accessors_are_decodings)
+    (hdot : v.netloc = [] ∨ NoDots (splitOn 47 a.path)) :     -- "dot segments under an authority excepted"
+    pathDecoded e v = a.path :=
+  C06_build_path_readback_nodots e a v h henc hp hn hne hdot
+
+/-- closes GAPS 3 (user, password): "build()" — `build(user=s, password=p, host=…)`: `.user` is `s` for a non-empty
+    `s` (whatever the password), `None` for an absent or EMPTY user (also when a password is given: authority
+    ":pw@host"); `.password` is `p` for EVERY `p` including "", `None` when absent. -/
+theorem C06_headline_build_user_password_readback (e : Env) (a : BuildArgs) (v : Url) (h : build e a = .ok v)
+    (henc : a.encoded = false)      -- auto-encoding mode (decoded values)
+    (hauth : a.authority = [])      -- `authority=` takes a raw authority text, not decoded values (and excludes user= / host=)
+    (hhost : a.host ≠ []) :         -- without `host=` no authority is stored: user= / password= are silently dropped
+    (∀ s, a.user = some s → PyStr s → NoSurrogate s → s ≠ [] → user e v = .ok (some s)) ∧
+    ((a.user = none ∨ a.user = some []) → user e v = .ok none) ∧
+    (∀ p, a.password = some p → (∀ s, a.user = some s → PyStr s) → PyStr p → NoSurrogate p →
+      password e v = .ok (some p)) ∧
+    (a.password = none → (∀ s, a.user = some s → PyStr s) → password e v = .ok none) :=
+  ⟨fun s hus hs hn h0 => C06_build_user_readback e a v h henc hauth hhost s hus hs hn h0,
+   fun hus => C06_build_user_none e a v h henc hauth hhost hus,
+   fun p hpw hu hp hn => C06_build_password_readback e a v h henc hauth hhost hu p hpw hp hn,
+   fun hpw hu => C06_build_password_none e a v h henc hauth hhost hu hpw⟩
+
+/-- closes GAPS 3 (host; `host` is not in the property's list of accessors): "build()" — `build(host=x)`:
+    (i) an ASCII registered name reads back LOWER-CASED from `raw_host`, and from `host` when the IDNA decoder (an
+        oracle in the model; `URL.host` calls it unless the raw host ends in a digit and has no "xn--") maps that
+        ASCII lower-case name to itself;
+    (ii) an IPv4 literal reads back unchanged from both;
+    (iii) an IPv6 literal (any spelling, optional "%zone") reads back as its canonical lower-case text, the zone id
+        verbatim, without brackets, from both. -/
+theorem C06_headline_build_host_readback (e : Env) (a : BuildArgs) (v : Url) (h : build e a = .ok v)
+    (henc : a.encoded = false)      -- auto-encoding mode
+    (hauth : a.authority = []) :    -- `authority=` takes a raw authority text
+    (a.host ≠ [] → isAscii a.host = true →
+      -- the text is not an IP literal (those are (ii), (iii)):
+      (parseIP (partition 37 a.host).1 = none ∨ (58 ∉ a.host ∧ ∀ l, a.host.getLast? = some l → isDigitC l = false)) →
+      rawHost e v = .ok (some (lower a.host)) ∧
+      -- oracle hypothesis, needed only when `URL.host` calls the IDNA decoder:
+      ((((∀ l, (lower a.host).getLast? = some l → isDigitC l = false) ∨
+          hasSub [120, 110, 45, 45] (lower a.host) = true) →
+        e.o.idnaDec (lower a.host) = some (some (lower a.host))) →
+       host e v = .ok (some (lower a.host)))) ∧
+    (∀ o4, parseIPv4 a.host = some o4 → rawHost e v = .ok (some a.host) ∧ host e v = .ok (some a.host)) ∧
+    (∀ h8, parseIPv4 (partition 37 a.host).1 = none → parseIPv6 (partition 37 a.host).1 = some h8 →
+      rawHost e v = .ok (some (ipv6ToStr h8 ++
+        (if (partition 37 a.host).2.1 then [37] ++ (partition 37 a.host).2.2 else []))) ∧
+      host e v = .ok (some (ipv6ToStr h8 ++
+        (if (partition 37 a.host).2.1 then [37] ++ (partition 37 a.host).2.2 else [])))) :=
+  ⟨fun hhost hasc hnip => C06_build_host_readback_lower e a v h henc hauth hhost hasc hnip,
+   fun o4 h4 => C06_build_host_readback_ipv4 e a v h henc hauth o4 h4,
+   fun h8 h4 h6 => C06_build_host_readback_ipv6 e a v h henc hauth h8 h4 h6⟩
+
+/-- closes GAPS 3 (query=): "build()" — `build(query=…)` with a non-empty sequence of string pairs, a sequence of
+    (key, value) items without list values, or a mapping (list values expand to repeated keys, ints by `str()`):
+    `url.query` yields exactly the pairs the argument denotes, in order — in BOTH `encoded=` modes (a non-string
+    `query=` is always rendered by the library) and whatever the other arguments are. -/
+theorem C06_headline_build_query_readback (e : Env) (a : BuildArgs) (v : Url) (h : build e a = .ok v) :
+    (∀ ps : List (Str × Str), a.query = .pairs (strItems ps) → ps ≠ [] →
+      (∀ p ∈ ps, PyStr p.1 ∧ NoSurrogate p.1 ∧ PyStr p.2 ∧ NoSurrogate p.2) → queryPairs v = ps) ∧
+    (∀ items ps, a.query = .pairs items → items ≠ [] → SingleValued items → expandItems items = some ps →
+      GoodPairs ps → queryPairs v = ps) ∧
+    (∀ items ps, a.query = .mapping items → items ≠ [] → expandItems items = some ps →
+      GoodPairs ps → queryPairs v = ps) :=
+  ⟨fun ps hq hne hps => C06_build_query_readback e a v h ps hq hne hps,
+   fun items ps hq hne hs hx hg => (C06_build_query_readback_pairs e a v h items ps hq hne hs hx hg).1,
+   fun items ps hq hne hx hg => (C06_build_query_readback_mapping e a v h items ps hq hne hx hg).1⟩
+
+/-- closes GAPS 3 (query_string=): "build()" — `build(query_string=s)` (no truthy `query=`): the stored raw query is
+    `QUERY_QUOTER(s)`, `url.query` is `parse_qsl` of that, and `url.query_string` is `s` WITH EVERY '+' REPLACED BY A
+    SPACE — so it reads back unchanged exactly for the texts without '+' (a query STRING is not a decoded value:
+    '+' in it already means space; next theorem). -/
+theorem C06_headline_build_query_string_readback (e : Env) (a : BuildArgs) (v : Url) (h : build e a = .ok v)
+    (henc : a.encoded = false)                -- auto-encoding mode
+    (hq : qargTruthy a.query = false)         -- `query=` and `query_string=` together are rejected
+    (hs : PyStr a.queryString)                -- model artefact
+    (hn : NoSurrogate a.queryString) :        -- "lone surrogates … excepted"
+    v.query = q e Gen.QUERY_QUOTER a.queryString ∧
+    queryPairs v = parseQsl (q e Gen.QUERY_QUOTER a.queryString) ∧
+    queryString e v = plusToSpace a.queryString ∧
+    (43 ∉ a.queryString → queryString e v = a.queryString) :=
+  ⟨(C06_build_query_string_readback e a v h henc hq hs hn).1, (C06_build_query_string_readback e a v h henc hq hs hn).2.1,
+   (C06_build_query_string_readback e a v h henc hq hs hn).2.2,
+   fun h43 => C06_build_query_string_readback_noplus e a v h henc hq hs hn h43⟩
+
+/-- — "reads back unchanged" is FALSE for `query_string=` texts with '+':
+    `URL.build(host="h", query_string="a+b").query_string == "a b"` on both backends (the raw query is "a+b").
+    NOT in KNOWN_FINDINGS.jsonl: `query_string=` takes a query STRING, in which (as for `with_query(str)`, GAPS 7) '+'
+    already means space ('%' does NOT start an escape here: it is quoted and reads back), so it is arguably not "a
+    decoded value"; if it is read as one, this is a deviation — see GAPS 3. -/
+theorem C06_headline_build_query_string_readback_fails_for_plus (b : Backend) :
+    ∃ v, build ⟨b, Oracles.empty⟩ { host := "h".toStr, queryString := "a+b".toStr } = .ok v ∧
+      v.query = "a+b".toStr ∧ queryString ⟨b, Oracles.empty⟩ v = "a b".toStr ∧
+      queryString ⟨b, Oracles.empty⟩ v ≠ "a+b".toStr :=
+  C06_build_query_string_plus_counterexample b
+
+end BuildMoreHeadline
+
 /-- "with_user", "with_password" — for a URL whose stored netloc is `make_netloc(user, pw, host, port)` with a
     well-shaped user (`UserOK`: non-empty, no ':') and host (`HostOK`: non-empty, no '@' '[' ']'); an empty `s` for
-    with_user is excluded (`make_netloc` writes no "@" for an empty user without password, so it reads back as None). -/
+    with_user is excluded (`make_netloc` writes no "@" for an empty user without password, so it reads back as None).
+    For constructor results (pre-filled cache) and URLs with the invariant `NetlocCanon`:
+    `C06_headline_with_user_password_readback_constructor` / `…_invariant` / `…_from_input` (C06HeadlineMore.lean, GAPS 4). -/
 theorem C06_headline_with_user_password_readback (e : Env) (qf : Str → Str) (usr pw : Option Str) (h : Str)
     (port : Option Nat) (scheme path query fragment : Str) (s : Str)
     (hu : UserOK usr) (hh : HostOK h) (hp : ∀ p, port = some p → p ≤ 65535) (hs : PyStr s) (hn : NoSurrogate s) :
@@ -166,12 +325,46 @@ theorem C06_headline_with_user_password_readback (e : Env) (qf : Str → Str) (u
   ⟨fun h0 => C06_with_user_readback e qf usr pw h port scheme path query fragment s hu hh hp hs hn h0,
    C06_with_password_readback e qf usr pw h port scheme path query fragment s hu hh hp hs hn⟩
 
-/-- "with_path" -/
+/-- "with_path" (first version; superseded by C06_headline_with_path_readback_general below, which allows '.' inside
+    segments, rootless and empty texts, and keep_query / keep_fragment) -/
 theorem C06_headline_with_path_readback (e : Env) (u : Url) (t : Str) (ht : PyStr t) (hn : NoSurrogate t)
     (hnet : u.netloc = [] ∨ 46 ∉ Gen.PATH_QUOTER.run e.b t)  -- "dot segments under an authority excepted" (any '.' excluded)
     (hroot : t.head? = some 47) :                              -- a rootless non-empty path gets a '/' prepended
+                                                               -- (C06_headline_with_path_readback_fails_for_rootless)
     pathDecoded e (withPath e u t false false false) = t :=
   C06_with_path_readback e u t ht hn hnet hroot
+
+section PathMoreHeadline
+open PathLemmas PathAlg
+
+/-- closes GAPS 5: "with_path" — `with_path(t, keep_query=kq, keep_fragment=kf)` for a Python string `t` without lone
+    surrogates and — under an authority — without dot SEGMENTS ('.' inside a segment is fine: "/a.b/c.txt"; the
+    library roots the text first and then normalises, so nothing else changes): `.path` is `t` when `t` is rooted,
+    `"/" + t` when `t` is ROOTLESS and non-empty (the library prepends the slash, with or without an authority), and
+    the empty text reads back as "" without and "/" with an authority; query and fragment are kept or cleared as asked. -/
+theorem C06_headline_with_path_readback_general (e : Env) (u : Url) (t : Str) (kq kf : Bool)
+    (ht : PyStr t)                                             -- model artefact
+    (hn : NoSurrogate t)                                       -- "lone surrogates … excepted"
+    (hnd : u.netloc = [] ∨ NoDots (splitOn 47 t)) :            -- "dot segments under an authority excepted"
+    pathDecoded e (withPath e u t false kq kf) =
+      (if t = [] then (if u.netloc = [] then [] else [47]) else if t.head? = some 47 then t else 47 :: t) ∧
+    (withPath e u t false kq kf).query = (if kq then u.query else []) ∧
+    (withPath e u t false kq kf).fragment = (if kf then u.fragment else []) :=
+  C06_with_path_readback_nodots e u t kq kf ht hn hnd
+
+/-- — so "reads back unchanged" is FALSE for a rootless non-empty text: the library accepts it and stores it ROOTED,
+    `URL("http://h").with_path("a.b/c").path == "/a.b/c"` (also without an authority:
+    `URL("x:").with_path("a").path == "/a"`); the exact read-back is `"/" + t`.  NOT in
+    KNOWN_FINDINGS.jsonl (the first theorem excluded the case by its guard `hroot`); by the letter of the property
+    ("reads back unchanged", exceptions: lone surrogates, dot segments) it is a deviation — see GAPS 5. -/
+theorem C06_headline_with_path_readback_fails_for_rootless (e : Env) (u : Url) (t : Str) (kq kf : Bool)
+    (ht : PyStr t) (hn : NoSurrogate t)                        -- as above
+    (hnd : u.netloc = [] ∨ NoDots (splitOn 47 t))              -- as above
+    (h0 : t ≠ []) (hr : t.head? ≠ some 47) :                   -- the case: `t` is non-empty and rootless
+    pathDecoded e (withPath e u t false kq kf) = 47 :: t ∧ pathDecoded e (withPath e u t false kq kf) ≠ t :=
+  C06_with_path_readback_rootless e u t kq kf ht hn hnd h0 hr
+
+end PathMoreHeadline
 
 /-- "with_name" ('/' in a name is rejected by the library), "with_fragment" (and `None` clears it) -/
 theorem C06_headline_with_name_fragment_readback (e : Env) (u : Url) (t : Str) (ht : PyStr t) (hn : NoSurrogate t) :
@@ -179,6 +372,17 @@ theorem C06_headline_with_name_fragment_readback (e : Env) (u : Url) (t : Str) (
     fragmentDecoded e (withFragment e u (some t)) = t ∧ fragmentDecoded e (withFragment e u none) = [] :=
   ⟨fun h v => C06_with_name_readback e u t ht hn h v, C06_with_fragment_readback e u t ht hn,
    C06_with_fragment_none e u⟩
+
+/-- closes GAPS 7 (first half): "with_name" — `with_name(t, keep_query=kq, keep_fragment=kf)` for ANY flags: whenever
+    the library accepts `t` (it rejects a `t` containing '/', "." and ".."), `.name` is `t`, and query / fragment are
+    kept or cleared as asked (seen through `query_string`, `query` and `fragment`). -/
+theorem C06_headline_with_name_readback_keep (e : Env) (u : Url) (t : Str) (kq kf : Bool) (v : Url)
+    (ht : PyStr t)                  -- model artefact
+    (hn : NoSurrogate t) :          -- "lone surrogates … excepted"
+    withName e u t kq kf = .ok v → name e v = .ok t ∧
+      queryString e v = (if kq then queryString e u else []) ∧ queryPairs v = (if kq then queryPairs u else []) ∧
+      fragmentDecoded e v = (if kf then fragmentDecoded e u else []) :=
+  C06_with_name_readback_keep e u t kq kf v ht hn
 
 /-- "with_query" — a sequence of string pairs, and a mapping (list values expand to repeated keys, ints by str()):
     `url.query` yields exactly the supplied pairs, in order. -/
@@ -200,32 +404,121 @@ theorem C06_headline_child_readback (e : Env) (u : Url) (s : Str) (v : Url)
     makeChild e u [s] false = .ok v → name e v = .ok s :=
   C06_child_name_readback e u s v hs hsur h47 h46 hne hpath
 
+section ChildMoreHeadline
+open PathLemmas PathAlg
+
+/-- closes GAPS 6 (segments with '.'): "/ or joinpath" — ONE segment that may contain '.' (only "." and ".." themselves
+    are excluded: the property's exception), read through `name`. -/
+theorem C06_headline_child_readback_dots (e : Env) (u : Url) (s : Str) (v : Url)
+    (hs : PyStr s)                                                     -- model artefact
+    (hsur : NoSurrogate s)                                             -- "lone surrogates … excepted"
+    (h47 : 47 ∉ s) (hne : s ≠ [])                                      -- ONE non-empty segment (texts with '/': next theorem)
+    (hdot : s ≠ dot ∧ s ≠ dotdot)                                      -- "dot segments … excepted"
+    (hold : u.netloc ≠ [] → NoDots (splitOn 47 u.path))                -- the OLD path has no dot segment under an authority, and
+    (hpath : u.netloc ≠ [] → (u.path = [] ∨ u.path.head? = some 47)) : -- is empty or rooted there (both: GAPS 9)
+    makeChild e u [s] false = .ok v → name e v = .ok s :=
+  C06_child_name_readback_dots e u s v hs hsur h47 hne hdot hold hpath
+
+/-- closes GAPS 6 (texts with '/', read-back through `parts` and `path`): "/ or joinpath" — `u / s` (`u.joinpath(s)`)
+    for a text `s` that may contain '/' and '.', no dot SEGMENT under an authority: the segments of `s` read back at
+    the end of `parts` (after the old decoded parts without one trailing empty part), its last segment through `name`,
+    and `path` is the old decoded path without ONE trailing slash, then "/" and `s` (for an empty old path: `s`
+    itself without, "/" + `s` with an authority). -/
+theorem C06_headline_child_slash_readback (e : Env) (u : Url) (s : Str) (v : Url)
+    (hs : PyStr s) (hsur : NoSurrogate s)                              -- model artefact; "lone surrogates … excepted"
+    (hnd : u.netloc ≠ [] → NoDots (splitOn 47 u.path) ∧ NoDots (splitOn 47 s))  -- "dot segments under an authority excepted" (old path: GAPS 9)
+    (hq : u.netloc ≠ [] → u.path = [] → s ≠ [])                        -- "http://h" / "" is excluded (the result path would be "/")
+    (hpath : u.netloc ≠ [] → (u.path = [] ∨ u.path.head? = some 47)) : -- old path empty or rooted under an authority (GAPS 9)
+    makeChild e u [s] false = .ok v →
+      partsDecoded e v = (stripTrail (rawParts u)).map (uq e Gen.UNQUOTER) ++ splitOn 47 s ∧
+      name e v = .ok ((splitOn 47 s).getLast?.getD []) ∧
+      pathDecoded e v =
+        (if u.path = [] then (if u.netloc = [] then s else 47 :: s)
+         else (if u.path.getLast? = some 47 then (pathDecoded e u).dropLast else pathDecoded e u) ++ 47 :: s) :=
+  C06_child_slash_readback e u s v hs hsur hnd hq hpath
+
+/-- closes GAPS 6 (several arguments): "joinpath" — `u.joinpath(a₁, …, aₙ)` for Python strings without lone surrogates
+    and — under an authority — without dot segments: the decoded `parts` are the old decoded parts (without a trailing
+    empty one) followed by the segments of the arguments AS GIVEN (`PathMore.argSegs e true ps`: each argument split at
+    '/', the trailing empty segment of a non-last one dropped); `name` is the last of them.  (Whenever the library
+    accepts the call: an argument starting with '/' is rejected.) -/
+theorem C06_headline_joinpath_readback (e : Env) (u : Url) (ps : List Str) (v : Url)
+    (hne : ps ≠ [])                                                    -- at least one argument
+    (hps : ∀ p ∈ ps, PyStr p ∧ NoSurrogate p)                          -- model artefact; "lone surrogates … excepted"
+    (hnd : u.netloc ≠ [] → NoDots (splitOn 47 u.path) ∧ ∀ p ∈ ps, NoDots (splitOn 47 p))  -- "dot segments under an authority excepted" (old path: GAPS 9)
+    (hq : u.netloc ≠ [] → u.path = [] → ∃ p ∈ ps, p ≠ [])              -- not all arguments empty on an empty path under an authority
+    (hpath : u.netloc ≠ [] → (u.path = [] ∨ u.path.head? = some 47)) : -- old path empty or rooted under an authority (GAPS 9)
+    makeChild e u ps false = .ok v →
+      partsDecoded e v = (stripTrail (rawParts u)).map (uq e Gen.UNQUOTER) ++ PathMore.argSegs e true ps ∧
+      name e v = .ok ((PathMore.argSegs e true ps).getLast?.getD []) :=
+  C06_joinpath_parts_readback e u ps v hne hps hnd hq hpath
+
+end ChildMoreHeadline
+
 /-
 GAPS:
- 1. "query" accessor: it is `parse_qsl`, not the library's unquoter.  No theorem states what `parseQsl u.query` is in
-    terms of UTF-8 percent-decoding for ARBITRARY raw queries (only the read-back direction, C12_query_readback, and
-    `GoodPairs` preservation).  For undecodable escapes the clause is false (F-C06-query-replace, restated above).
+ 1. CLOSED by C06_query_accessor_spec / _spec_url / _spec_reach (C12More.lean), see
+    C06_headline_query_accessor_is_form_decoding, …_reachable, …_fails_for_raw_surrogate.  For every raw query that is a
+    Python string without lone surrogates (in particular the query of every URL reachable through the auto-encoding
+    API) `url.query` is: cut at '&', drop empty pieces, split at the first '=', '+' → space, `%XY` → byte, malformed '%'
+    kept, UTF-8 decoding with U+FFFD replacement.  For undecodable escapes the clause "kept verbatim" stays false
+    (F-C06-query-replace, C06_headline_query_accessor_fails_for_undecodable).
  2. "equals the UTF-8 percent-decoding": `DecodeSpec` is a specification written for this project; its agreement with
     "percent-decode to bytes, then UTF-8 decode" is proved only for inputs whose bytes ARE valid UTF-8
     (C06_decodes_utf8, for UNQUOTER and PATH_UNQUOTER) and characterised piecewise by the C06_spec_* lemmas.  Missing:
     the same corollary for QS_UNQUOTER (query_string; '+', and "+=&;" stay encoded) and PATH_SAFE_UNQUOTER, and a
     statement of which characters `uqEmit` keeps encoded for each generated table (its two re-quote character sets) — so
     "query_string equals the decoding of the raw query" is only as precise as `DecodeSpec` itself.
- 3. build(): read-back theorems exist for `path` and `fragment` only.  Nothing for build(user=, password=) → user /
-    password, build(query=…/query_string=…) → query / query_string, build(host=) → host.
- 4. with_user / with_password: stated for URLs of the shape `fromParts scheme (makeNetloc …)` with `UserOK`/`HostOK`;
-    there is no theorem that every reachable URL has this shape (same missing link as C03 gap 1), and
-    with_user("") / with_password on a URL without host are not covered.
- 5. with_path: rootless text (no leading '/') is not covered although the library accepts it without an authority;
-    "dot segments under an authority excepted" is proved in the much stronger form "no '.' anywhere in the quoted
-    path" (also for with_path, build, `/`): texts such as "/a.b/c.txt" under an authority have NO read-back theorem.
- 6. `/` and joinpath: one segment only (`makeChild e u [s]`), read through `name`.  Nothing for several segments,
-    for segments containing '/' (which split), for read-back through `parts` / `path`, or for with_suffix (not in
-    the property's list).
- 7. with_name: only `keepQuery = keepFragment = false`; with_query: `.str` arguments (a whole query string, where '+'
+ 3. PARTLY CLOSED by C06_build_user_readback / _user_none / _password_readback / _password_none,
+    C06_build_host_readback_lower / _ipv4 / _ipv6, C06_build_query_readback / _pairs / _mapping,
+    C06_build_query_string_readback / _noplus / _plus_counterexample (C06More.lean), see
+    C06_headline_build_user_password_readback, C06_headline_build_host_readback, C06_headline_build_query_readback,
+    C06_headline_build_query_string_readback, C06_headline_build_query_string_readback_fails_for_plus.
+    Proved, for `build(encoded=False)` without `authority=` and with `host=`: user (non-empty) and password (any, ""
+    included) read back, absent / empty user and absent password read `None`; an ASCII registered name reads back
+    lower-cased from raw_host (and from host under an oracle hypothesis, GAPS 10), IPv4 literals unchanged, IPv6
+    literals canonical without brackets; `query=` pairs / mapping read back from `url.query` in both `encoded=` modes;
+    `query_string=s` reads back from `query_string` as `s` with '+' replaced by ' ' (unchanged iff no '+').
+    Remains open: `build(authority=…)` (a raw text; nothing about its user / password / host accessors here);
+    non-ASCII `host=` (IDNA: C16, no read-back statement); `build(query="a=b")` (a str `query=`); whether the
+    `query_string=` / '+' behaviour is a deviation from the property (it is false by the letter, not in KNOWN_FINDINGS).
+ 4. PARTLY CLOSED by C06_cached_with_user_readback / _with_password_readback, C06_ctor_with_user_readback /
+    _with_password_readback, C06_netlocCanon_user_password_readback (C11Ctor.lean — that file IMPORTS this one, so the
+    headline theorems are in the companion file C06HeadlineMore.lean), see
+    C06_headline_with_user_password_readback_cached, …_constructor, …_invariant, …_from_input (C06HeadlineMore.lean).
+    Proved: with_user (non-empty text) and with_password (any text, "" included) read back on every URL with a
+    non-empty authority that satisfies the invariant `NetlocCanon` (C03Reach.lean: "syntactically valid host"; kept by
+    every operation with Python-string / valid-host arguments, C03_applyOp_netlocCanon; established by the constructor
+    from the input text for the supported ASCII host kinds: …_from_input), and on constructor results — pre-filled
+    cache included — under `GoodAuthority` (cache agrees with the stored authority) and `Written` (the stored authority
+    is `make_netloc` text).  `NetlocCanon` / `GoodAuthority` are hypotheses there, not consequences of reachability
+    alone (F-C03-bracket, F-C03-empty-authority violate them; IDN and IPvFuture hosts are outside `AuthInput`).
+    Remains open as before: with_user("") / with_password on a URL without host are not covered.
+ 5. CLOSED by C06_with_path_readback_nodots / _rootless / _rooted and C06_build_path_readback_nodots (C06More.lean), see
+    C06_headline_with_path_readback_general, C06_headline_with_path_readback_fails_for_rootless,
+    C06_headline_build_path_readback_dots.  with_path (any keep_query / keep_fragment) and build(path=) read back every
+    text without dot SEGMENTS under an authority ('.' inside segments allowed; no restriction without an authority);
+    with_path of the empty text reads "" / "/"; with_path of a ROOTLESS non-empty text reads back as "/" + text — "reads
+    back unchanged" is false there (not in KNOWN_FINDINGS).  What texts WITH dot segments under an authority read back
+    as is the property's exception (C15).
+ 6. PARTLY CLOSED by C06_child_name_readback_dots, C06_child_slash_readback, C06_joinpath_parts_readback
+    (C06More.lean), see C06_headline_child_readback_dots, C06_headline_child_slash_readback,
+    C06_headline_joinpath_readback.  Proved: one segment with '.' through `name`; one text with '/' and '.' through
+    `parts`, `name` AND `path`; several arguments through `parts` and `name`.  Remains open: read-back through `path`
+    for several arguments; with_suffix (not in the property's list); the side conditions on the OLD path (GAPS 9).
+ 7. PARTLY CLOSED by C06_with_name_readback_keep (C06More.lean), see C06_headline_with_name_readback_keep: with_name for
+    ANY `keep_query` / `keep_fragment`.  Unchanged: with_query: `.str` arguments (a whole query string, where '+'
     and '%XY' are NOT decoded values) are rightly outside; float / bool / None values are C12.
  8. path_safe read-back (`…flatMap (%→%25)`) and all read-backs are at quoter level or first-hop accessor level; no
     theorem chains two modifiers (e.g. with_user then with_path keeps `user`): that is property C11.
+ 9. NEW.  The `/` / joinpath theorems (C06_headline_child_readback, …_dots, …_slash_readback, …_joinpath_readback) assume
+    of the OLD URL, under an authority, that its stored path has no dot segment (`hold` / first half of `hnd`) and is
+    empty or rooted (`hpath`).  Both hold for every URL reachable through the auto-encoding API
+    (C15_headline_reachable, C15Headline.lean, for `ReachC`), but that composition is not made in this file; for
+    `encoded=True` URLs they are genuine restrictions.
+10. NEW.  C06_headline_build_host_readback (i), decoded `host`: the hypothesis that the IDNA decoder maps an ASCII
+    lower-case name to itself is an assumption about the oracle (the `idna` package) with no discharging theorem; it is
+    not needed for raw_host, for names ending in a digit without "xn--", or for IP literals.
 -/
 
 end Yarl
